@@ -10,6 +10,7 @@ import (
 	"errors"
 	"fmt"
 	"math/rand"
+	"net"
 	"os"
 	"strings"
 	"sync"
@@ -63,6 +64,7 @@ type vfConnScenarioCfg struct {
 	// the node answering OPTIONS promptly / late / never / with an ERROR / with a frame of another kind / with an
 	// unparsable SUPPORTED; "dead": from some point on the node never answers OPTIONS again
 	TLimit int // value of the package variable TimeoutLimit during this scenario (such scenarios run alone)
+	ErrKind int // writefail: what the failing socket reports (0 network error, 1 wraps DeadlineExceeded, 2 wraps Canceled)
 }
 
 type vfConnPendingAnswer struct {
@@ -464,8 +466,17 @@ func vfRunConnScenario(cfg vfConnScenarioCfg) (events []map[string]interface{}, 
 		}()
 	case "writefail":
 		off := int64(len(mc.Written())) + int64(rng.Intn(40*total/2+1))
-		tr.Emit("env_failwrite", "at", int(off))
-		mc.SetFault(&vfWriteFault{FailAtByte: off, StallAtByte: -1})
+		// what the socket reports: a plain network error, or - as a net.Conn of a custom dialer that
+		// implements deadlines with contexts does - an error that is (or wraps) a context error
+		var werr error
+		switch cfg.ErrKind % 3 {
+		case 1:
+			werr = &net.OpError{Op: "write", Net: "tcp", Err: context.DeadlineExceeded}
+		case 2:
+			werr = fmt.Errorf("vf: tunnel write: %w", context.Canceled)
+		}
+		tr.Emit("env_failwrite", "at", int(off), "errkind", fmt.Sprintf("%T", werr))
+		mc.SetFault(&vfWriteFault{FailAtByte: off, StallAtByte: -1, Err: werr})
 	}
 
 	// ---- callers
@@ -577,7 +588,8 @@ func vfRunConnScenario(cfg vfConnScenarioCfg) (events []map[string]interface{}, 
 			time.Sleep(2 * time.Millisecond)
 		}
 	}
-	vfEmitWire(tr, mc, wireBase, connID, cfg.Proto, conn.Closed())
+	// "closed" as found at quiescence, before the harness' own Close: a torn frame must have closed it
+	vfEmitWire(tr, mc, wireBase, connID, cfg.Proto, closed || !(settled))
 	sc.gates.ReleaseAll()
 	return tr.Events(), ""
 }
@@ -611,6 +623,7 @@ func TestVfConnStress(t *testing.T) {
 	sem := make(chan struct{}, 8)
 	var fatalMu sync.Mutex
 	var fatals []string
+	nwf := 0
 	for i := 0; i < n; i++ {
 		cfg := vfConnScenarioCfg{Kind: kinds[i%len(kinds)], Proto: 4, Callers: callers, PerCall: per, Seed: rng.Int63()}
 		if cfg.Kind == "exhaust" || i%3 == 1 {
@@ -629,6 +642,10 @@ func TestVfConnStress(t *testing.T) {
 			cfg.HB, cfg.Kind = "on", "writefail"
 		case "hbextclose":
 			cfg.HB, cfg.Kind = "on", "extclose"
+		}
+		if cfg.Kind == "writefail" {
+			nwf++
+			cfg.ErrKind = nwf
 		}
 		wg.Add(1)
 		sem <- struct{}{}
